@@ -5,6 +5,7 @@ partition the property induces, never matched as text -- so ``x < 5``,
 from __future__ import annotations
 
 import ast
+import os
 import itertools
 from typing import Any, Dict, List, Optional
 
@@ -128,11 +129,17 @@ def guard_verdict(ctx, fi: FuncInfo, node, env: Dict[str, Any], pe: Optional[PEv
                     continue
                 if (v and terminates(s.body)) or (not v and terminates(s.orelse)):
                     raise _Gone()
-            if isinstance(s, (ast.Assign, ast.AnnAssign)) and not any(isinstance(t, (ast.Attribute, ast.Subscript)) for t in (s.targets if isinstance(s, ast.Assign) else [s.target])):
+            def _plain(t):
+                # a local, or a field of an abstract object standing for the receiver / an argument (self._node = node)
+                if isinstance(t, ast.Attribute):
+                    return isinstance(t.value, ast.Name) and isinstance(env.get(t.value.id), dict) and isinstance(env[t.value.id].get("__obj__"), bool)
+                return not isinstance(t, ast.Subscript)
+            if isinstance(s, (ast.Assign, ast.AnnAssign)) and all(_plain(t) for t in (s.targets if isinstance(s, ast.Assign) else [s.target])):
                 try:
                     pe.stmt(s, env, fi, 0)
-                except PEvalUnsupported:
-                    pass
+                except PEvalUnsupported as _ex:
+                    if os.environ.get("SA_DEBUG"):
+                        print("prefix unsupported:", norm(s)[:80], _ex)
         return None
 
     try:
@@ -162,6 +169,28 @@ def guard_verdict(ctx, fi: FuncInfo, node, env: Dict[str, Any], pe: Optional[PEv
                 for hd in holder.handlers:
                     if any(any(x is node for x in ast.walk(b)) for b in hd.body):
                         nxt = hd.body
+                        # the handler runs only when the protected block raises something it catches: fold the block
+                        from .exc import resolve_exc_class
+                        from .peval import _Ret
+                        try:
+                            pe.block(holder.body, env, fi, 0)
+                            return False
+                        except _Ret:
+                            return False
+                        except Raised as r:
+                            caught = None
+                            for h2 in holder.handlers:
+                                tys = [None] if h2.type is None else (h2.type.elts if isinstance(h2.type, ast.Tuple) else [h2.type])
+                                nms = [None if t is None else resolve_exc_class(pe.prog, fi.module, t) for t in tys]
+                                if any(n is None or pe.w_h().issub(r.cls, n) for n in nms):
+                                    caught = h2
+                                    break
+                            if caught is None:
+                                return ("raises", r.cls)
+                            if caught is not hd:
+                                return False
+                            if hd.name:
+                                env[hd.name] = Opaque("exc")
             if nxt is None:
                 return True
             cur = nxt
